@@ -12,7 +12,7 @@ StepOfImpl(s, r) ==
         fin == FoldLeft(LAMBDA acc, c : V!RunStep(t, acc, c), V!AInit(t), r.calls)
     IN [ok |-> r.ncalls = Len(r.calls) /\ fin.mode = "done" /\ fin.res = r.ret, st |-> 0]
 TraceLog == ndJsonDeserialize(IOEnv.TRACE)
-T == INSTANCE TraceBase WITH Log <- TraceLog, InitSt <- 0, StepOf <- StepOfImpl
+T == INSTANCE TraceBase WITH Log <- TraceLog, InitSt <- 0, StepOf <- StepOfImpl, ResyncAtNew <- FALSE
 Spec == T!Spec
 Done == T!Done
 ====
